@@ -1,4 +1,6 @@
-\* C16 quick: all 1x1 and 2x2 over -2..2, all 3x3 over {-1,0,1}, complex 1x1 and 2x2 over Gaussian integers with parts in -1..1
+\* C16 quick: all 1x1 and 2x2 over -2..2, all 3x3 over {-1,0,1}, complex 1x1 and 2x2 over Gaussian integers with parts in -1..1;
+\* graded (power-of-two scaled) versions of them: every (matrix, scaling) pair for 1x1, 1 in 8 for real 2x2, 1 in 256 for real 3x3,
+\* 1 in 64 for complex 2x2; 150 pseudo-random complex 3x3 and 60 real 4x4 matrices, unscaled and with 1 in 4 / 1 in 16 of the scalings
 SPECIFICATION Spec
 CONSTANTS
   RealSizes <- MC_RealSizes
